@@ -32,6 +32,10 @@ var (
 
 const goBin = "go1.26.8"
 
+// replayDir is where violation replay files are written ($BBSIM_REPLAYDIR lets concurrent development
+// runs of the same property keep their files apart).
+func replayDir() string { return envOr("BBSIM_REPLAYDIR", filepath.Join(verifDir, "replays")) }
+
 func envOr(k, d string) string {
 	if v := os.Getenv(k); v != "" {
 		return v
@@ -251,7 +255,7 @@ func cmdCheck(args []string) int {
 		return 2
 	}
 	buildS := time.Since(start).Seconds()
-	os.MkdirAll(filepath.Join(verifDir, "replays"), 0o755)
+	os.MkdirAll(replayDir(), 0o755)
 	os.MkdirAll(filepath.Join(verifDir, "evidence"), 0o755)
 
 	W := *workers
@@ -271,7 +275,7 @@ func cmdCheck(args []string) int {
 			defer wg.Done()
 			cmd := exec.Command(bin, "-test.run", "^TestWorker$", "-test.timeout", "0", "-test.cpu", "1",
 				"-prop", *prop, "-seed", strconv.FormatUint(seed, 10), "-from", strconv.Itoa(w), "-stride", strconv.Itoa(W),
-				"-count", strconv.Itoa(per), "-wall", fmt.Sprint(tc.wallS), "-out", outs[w], "-replaydir", filepath.Join(verifDir, "replays"))
+				"-count", strconv.Itoa(per), "-wall", fmt.Sprint(tc.wallS), "-out", outs[w], "-replaydir", replayDir())
 			rl := filepath.Join(scratch, fmt.Sprintf("race.%d", w))
 			cmd.Env = append(os.Environ(), "GOMAXPROCS=2", "GORACE=halt_on_error=0 log_path="+rl, "BBSIM_RACELOG="+rl)
 			// watchdog: a worker that outlives its wall cap by far is infrastructure trouble
